@@ -75,6 +75,7 @@ type V struct {
 	Failures []Failure
 	Spurious string // non-empty: witness violates an assumption / is incomplete
 	Reached  map[string]int
+	Params   map[string]int
 }
 
 // NewNative builds a V backed by concrete inputs.
@@ -140,6 +141,14 @@ func (v *V) lookup(name string) interface{} {
 }
 
 func (v *V) Symbolic() bool { return false }
+
+// Param returns a bound/tier parameter (engine: from the check configuration).
+func (v *V) Param(name string, def int) int {
+	if x, ok := v.Params[name]; ok {
+		return x
+	}
+	return def
+}
 
 func (v *V) Choice(name string, n int) int {
 	k := int(v.lookup(name).(int64))
